@@ -28,6 +28,14 @@ func NewEvalLambdaNode(lambda *ast.LambdaNode) (*EvalLambdaNode, error) {
 	}, nil
 }
 
+func (n *EvalLambdaNode) copyReset() NodeEvaluator {
+	return &EvalLambdaNode{
+		nodeEvaluator:   copyResetNodeEvaluator(n.nodeEvaluator),
+		constReturnType: n.constReturnType,
+		state:           CreateExecutionState(),
+	}
+}
+
 func (n *EvalLambdaNode) String() string {
 	return fmt.Sprintf("%s", n.nodeEvaluator)
 }
